@@ -58,9 +58,11 @@ package nsqd
 //@   modifies gReads, gReadName, gReadData, gReadErr, elems(byte)
 
 //@ func New(opts *Options) (*NSQD, error)
-//@   props C06
+//@   props C06 C11
 //@   nochan
 //@   requires opts != nil
+//   (round 6, area M) the HTTPS listener, if any, listens on tcp (what RealHTTPSAddr - the 403 answer of the TLS gate - relies on)
+//@   ensures[https-listener-on-tcp] result1 == nil ==> r6MHttpsOnTcp(result0)
 //@   ensures[one-lock-attempt] gDirOpens == old(gDirOpens) + 1 && (old(opts.DataPath) != "" ==> gDirOpenName == old(opts.DataPath))
 //@   ensures[daemon-only-with-the-lock] result1 == nil ==> result0 != nil && gDirOpenErr == nil && gFlocks == old(gFlocks) + 1 && gFlockErr == nil &&
 //@        gFlockHow == dirlock.gLockExNb() && gFlockFd == wrapI64(gFdOf(gDirOpenFile))
